@@ -892,7 +892,7 @@ class dictable(Dict):
         res = []
         row = []
         for key, i in keys2id:
-            if len(row) == 0 or key==prev:
+            if len(row) == 0 or cmp(key, prev) == 0:
                 row.append(i)
             else:
                 res.append((prev, row))
@@ -1127,7 +1127,7 @@ class dictable(Dict):
                     l+=1
                 while l<ls and r<rs and cmp(lxs[l],rxs[r]) == 1:
                     r+=1
-                if l<ls and r<rs and lxs[l] == rxs[r]:
+                if l<ls and r<rs and cmp(lxs[l], rxs[r]) == 0:
                     res.append((lxs[l], lids[l], rids[r]))
                     r+=1
                     l+=1
@@ -1227,7 +1227,7 @@ class dictable(Dict):
                 if mode == 1:
                     res.append(rids[r])                    
                 r+=1
-            if l<ls and r<rs and lxs[l] == rxs[r]:
+            if l<ls and r<rs and cmp(lxs[l], rxs[r]) == 0:
                 r+=1
                 l+=1
         if mode == 0:
